@@ -165,6 +165,9 @@ function envVariants (code, tier) {
 async function compile (code, kind, filename, preinstall) {
   const sandbox = {}
   const ctx = vm.createContext(sandbox)
+  // the source text of functions and classes is re-printed by any rewrite (layout, `=> e` vs `=> { return e; }`,
+  // the injected names and hook calls inside a body): in both realms every function reads the same
+  vm.runInContext("Object.defineProperty(Function.prototype, 'toString', { value: function toString () { return 'function () { [source text] }' }, writable: true, configurable: true })", ctx)
   if (preinstall) preinstall(ctx)
   if (kind === 'module') {
     const mod = new vm.SourceTextModule(code, { context: ctx, identifier: filename })
@@ -180,14 +183,14 @@ async function compile (code, kind, filename, preinstall) {
 
 const RUNNER = new vm.Script('__r = undefined; __t = undefined; try { __r = main.call(__self, __E) } catch (e) { __t = { e } }')
 
-async function runOne (ctx, spec, onWorld) {
+async function runOne (ctx, spec, onWorld, timeout = 2000) {
   const { w, E, self } = makeEnv(spec)
   if (onWorld) onWorld(w)
   ctx.__E = E
   ctx.__self = self
   let result
   try {
-    RUNNER.runInContext(ctx, { timeout: 2000 })
+    RUNNER.runInContext(ctx, { timeout })
     if (ctx.__t) result = 'throw ' + w.canon(ctx.__t.e)
     else {
       let r = ctx.__r
